@@ -220,7 +220,7 @@ class Machine:
         x_form = st.weighted((2, 2, 2, 3), "x-form")     # None, list, int array, float array
         integral_x = all(float(v).is_integer() for v in xs)
         y_form = st.weighted((2, 2, 3), "y-form")        # list, int array (if integral), float array
-        ctor = st.weighted((5, 2, 1), "ctor")            # Weaver, from_2d_array, from_dataframe
+        ctor = st.weighted((5, 2, 1, 1), "ctor")         # Weaver, from_2d_array, from_dataframe, from_csv
         if x_form == 0:
             xs = list(range(n))
         model = WeaverModel(xs, ys)
@@ -230,6 +230,16 @@ class Machine:
             self.remember(xy, "xy passed to from_2d_array")
             wv = self.Weaver.from_2d_array(xy)
             desc["ctor"] = "from_2d_array"
+        elif ctor == 3:
+            import os
+            path = os.path.join(R.scratch_root(), f"series-{os.getpid()}.csv")
+            with open(path, "w") as fh:
+                fh.write("".join(f"{float(a)!r},{float(b)!r}\n" for a, b in zip(xs, ys)))
+            try:
+                wv = self.Weaver.from_csv(path)
+            finally:
+                os.remove(path)
+            desc["ctor"] = "from_csv"
         elif ctor == 2:
             import pandas as pd
             df = pd.DataFrame({"t": np.array(xs, dtype=float), "v": np.array(ys, dtype=float)})
@@ -285,14 +295,17 @@ class Machine:
                     continue
                 return op, {"periodic": st.coin(1, 2, "periodic")}
             if op in ("shift_x", "shift_y"):
-                return op, {"shift": self.num("shift")}
+                return op, {"shift": self.num("shift"), "form_num": st.weighted((3, 2, 1, 1), "num-form")}
             if op == "scale_x":
-                return op, {"scale": st.pick((2.0, 0.5, 4.0, 0.25, 1.5, 3.0, 0.75, 1.7, 0.3), "scale")}
+                return op, {"scale": st.pick((2.0, 0.5, 4.0, 0.25, 1.5, 3.0, 0.75, 1.7, 0.3), "scale"),
+                            "form_num": st.weighted((3, 2, 1, 1), "num-form")}
             if op == "scale_y":
-                return op, {"scale": st.pick((2.0, 0.5, -1.0, 4.0, 0.25, -2.0, 1.5, -0.3, 1.7), "scale")}
+                return op, {"scale": st.pick((2.0, 0.5, -1.0, 4.0, 0.25, -2.0, 1.5, -0.3, 1.7), "scale"),
+                            "form_num": st.weighted((3, 2, 1, 1), "num-form")}
             if op == "normalize_x":
                 lo = self.num("lo")
-                return op, {"lo": lo, "hi": lo + st.pick((1.0, 0.5, 2.0, 10.0, 100.0, 7.3), "width")}
+                return op, {"lo": lo, "hi": lo + st.pick((1.0, 0.5, 2.0, 10.0, 100.0, 7.3), "width"),
+                            "form_num": st.weighted((3, 2, 1, 1), "num-form")}
             if op == "normalize_y":
                 if not (np.max(y) > np.min(y) and np.max(ry) > np.min(ry)):
                     continue
@@ -448,15 +461,27 @@ class Machine:
         return None
 
     # ------------------------------------------------------------ applying operations
+    @staticmethod
+    def as_form(v, form):
+        """The same number as a Python float (0), a Python int when integral (1), or a NumPy scalar (2, 3)."""
+        if form == 1 and float(v).is_integer():
+            return int(v)
+        if form == 2:
+            return np.float64(v)
+        if form == 3 and float(v).is_integer():
+            return np.int64(v)
+        return v
+
     def build_call(self, op, a, primary=True):
         """Returns (callable(wv), caller_arrays) for operation (op, a)."""
         W = self
+        form = a.get("form_num", 0)
         if op in ("shift_x", "shift_y"):
-            return lambda wv: getattr(wv, op)(a["shift"])
+            return lambda wv: getattr(wv, op)(self.as_form(a["shift"], form))
         if op in ("scale_x", "scale_y"):
-            return lambda wv: getattr(wv, op)(a["scale"])
+            return lambda wv: getattr(wv, op)(self.as_form(a["scale"], form))
         if op in ("normalize_x", "normalize_y"):
-            return lambda wv: getattr(wv, op)(a["lo"], a["hi"])
+            return lambda wv: getattr(wv, op)(self.as_form(a["lo"], form), self.as_form(a["hi"], form))
         if op == "append_one_sample":
             return lambda wv: wv.append_one_sample(make_periodic=a["periodic"])
         if op == "repeat":
@@ -535,8 +560,6 @@ class Machine:
         except Exception as e:
             self.on_valid_raised(op, a, e)
             return
-        if ret is not self.wv and self.mode == "C09":
-            self.fail("W5/mutator-does-not-return-self", f"op={op}", f"{op} did not return the Weaver itself")
         # model
         if op in DOMAIN_OPS:
             self.model.domain(op, a, *cuts)
@@ -812,10 +835,15 @@ class Machine:
             d["text"] = f"truncate_by_value({found[0]}, {found[1]:g}, x_left_as_ratio=True) - an empty range for one of the two series"
         elif c in ("truncate-index-bounds", "slice-index-bounds"):
             meth = "truncate_by_index" if c.startswith("truncate") else "slice_by_index"
-            if st.coin(1, 2, "neg-start"):
+            k = st.draw(0, 3, "bounds-variant")
+            if k == 0:
                 args = (-st.draw(1, 3), None)
-            else:
+            elif k == 1:
+                args = (-st.draw(1, 3), st.draw(1, n))
+            elif k == 2:
                 args = (0, n + st.draw(1, 5))
+            else:
+                args = (st.draw(1, max(1, n - 1)), n + st.draw(1, 5))
             d["call"] = lambda wv: getattr(wv, meth)(*args)
             d["text"] = f"{meth}{args}"
         elif c == "slice-value-not-a-sample":
